@@ -197,4 +197,26 @@ example : retryable (some [.text "HTTP 503 (Service Unavailable)"]) none "upstre
     retryable (some [.text ""]) (some []) "" = true ∧
     retryable (some [.text "a"]) (some []) "" = false := by decide
 
+/-! ## first delay and saturation -/
+
+/-- The first retry (one attempt made), no jitter: `min(initial, max)` seconds, at least 1 - the rate plays no part. -/
+theorem C12_first_delay (c : Cfg) (jn jd : Nat) (hj : c.jitter = .none) :
+    delay c 1 jn jd = max 1 (min c.initial c.maxDelay) := by
+  simp [delay, hj, baseNum, baseDen, ceilDiv]
+
+/-- Saturation: once `initial·rate^(a-1)` has reached the maximum, the un-jittered delay is exactly the
+maximum (≥ 1), for every rational rate - no overshoot from the ceiling. -/
+theorem C12_no_jitter_saturates (c : Cfg) (a jn jd : Nat) (hj : c.jitter = .none) (hr : 0 < c.rateDen)
+    (hs : c.maxDelay * c.rateDen ^ (a - 1) ≤ c.initial * c.rateNum ^ (a - 1)) :
+    delay c a jn jd = max 1 c.maxDelay := by
+  have hp : 0 < c.rateDen ^ (a - 1) := Nat.pow_pos hr
+  have : ceilDiv (c.maxDelay * c.rateDen ^ (a - 1)) (c.rateDen ^ (a - 1)) = c.maxDelay := by
+    unfold ceilDiv
+    generalize c.rateDen ^ (a - 1) = D at hp
+    have h0 : (D - 1) / D = 0 := Nat.div_eq_of_lt (by omega)
+    rw [Nat.add_sub_assoc hp, Nat.mul_comm, Nat.mul_add_div hp, h0, Nat.add_zero]
+  simp [delay, hj, baseNum, baseDen, Nat.min_eq_right hs, this]
+
+example : delay presetCritical 1 0 1 = 1 ∧ delay presetCritical 30 0 1 = 60 := by decide
+
 end C12S
